@@ -260,6 +260,17 @@ func (s *scenario) client(r *rand.Rand, kind string, ids []string, steps int) {
 		return
 	case "remrunning":
 		// a recurring job is removed (or replaced) while its function runs
+		if r.Intn(4) == 0 {
+			// ... by a job whose own function is running when the first one's returns (both take longer than a period)
+			s.add(r, ids[0], true, 0, ms(1400+r.Intn(300)))
+			if s.waitFire(ids[0], 1500*time.Millisecond) {
+				time.Sleep(ms(20 + r.Intn(100)))
+			}
+			s.add(r, ids[0], true, 0, ms(900+r.Intn(300)))
+			time.Sleep(ms(2600))
+			s.rem(ids[0])
+			return
+		}
 		s.add(r, ids[0], true, 0, ms(250+r.Intn(200)))
 		if s.waitFire(ids[0], 1500*time.Millisecond) {
 			time.Sleep(ms(20 + r.Intn(100)))
